@@ -1,13 +1,18 @@
 """C09 — every valid problem runs to completion in every supported mode."""
-from harness import runlevel as R, skel as S
+from harness import runlevel as R, skel as S, run_optmatrix as OM
 
 PROPS = "Props/C09.v"
 THEOREMS = ["C09_history_length", "C09_history_reads_in_range", "C09_final_selection_defined", "C09_poll_within_candidates", "C09_yval_vec_defined"]
 LEVEL = "proof"
+TRANSLATORS = ["option_reads"]      # ast census of every option read of pybads (fail closed) -> .cache/option_reads.json
 RULE = ("mode matrix of real runs on VALID problems: {deterministic, auto-detected, declared, specified noise} x {no constraint, ball, half-space, thin band, "
         "coarse-lattice feasible set} x {linear, log, unbounded, mixed boxes} x seeds, plus directed rare paths (tiny budgets, max_iter=1, noisy runs ending in "
         "iteration 0, repeated observations under specified noise, collapsing ES populations); any exception escaping optimize()/the constructor is a violation "
-        "keyed by (exception class, innermost pybads frame); non-trivial = run with >= 1 search and >= 1 poll")
+        "keyed by (exception class, innermost pybads frame); non-trivial = run with >= 1 search and >= 1 poll.  OPTION MATRIX: an ast census of every option read "
+        "(translate/option_reads.py, validated against the instrumented real Options object on every run) gives the LIVE options; for each one a small set of "
+        "alternative valid values is derived from its real default and its uses (+ a table of stated exclusions); short real runs change ONE option at a time in "
+        "each of the 4 noise modes (quick: seeded stratified sample touching every live option; thorough: all cells + random pairs); monitors: no escaping "
+        "exception, box, budget/count/message; runs within the skeleton model's premises are also compared with Model/Skeleton.v")
 TRUSTED = ["Coq 8.16.1 kernel + vm_compute", "hand-written model Model/Skeleton.v tied per loop iteration to real runs",
            "PARTIAL by nature: the theorems establish definedness of the history/yval_vec/poll-candidate reads the listed crashes come from, on the model; shape/dtype/index errors inside NumPy, gpyreg, SciPy and the unmodelled GP/ES code are only sampled by the mode-matrix panel"]
 ASSUMPTIONS = ["well-behaved target (finite real values; positive finite SDs), valid problem definition"]
@@ -49,16 +54,116 @@ def tie(ctx, broken):
             k = f"{tr['spec'].get('noise')}/{tr['spec'].get('cons')}/{tr['spec'].get('box', 'sym')}"
             modes[k] = modes.get(k, 0) + 1
     ctx.coverage["mode_matrix"] = modes
-    R.apply_monitor(ctx, out, R.mon_c09, only_first=False)
+    invalid = [tr["spec"] for tr, _ in out if _generator_made_invalid_problem(tr)]
+    ctx.coverage["generated_invalid_problems_skipped"] = len(invalid)      # thorough panel: random x0 kind x constraint kind (start violating the constraint)
+    R.apply_monitor(ctx, [(tr, P) for tr, P in out if not _generator_made_invalid_problem(tr)], R.mon_c09, only_first=False)
+    option_matrix(ctx, broken)
+
+
+def option_matrix(ctx, broken):
+    """the systematic option x noise-mode matrix (harness/run_optmatrix.py)"""
+    from translate import option_reads as ORD
+    try:
+        cen = ORD.load_emitted()
+        tab = OM.value_table(cen, ctx.tier)
+    except Exception as ex:
+        ctx.oblige("option_matrix:plan", "correspondence", False, repr(ex))
+        broken.append(("option_matrix:plan", f"no census / value table: {ex!r}"))
+        return
+    ctx.oblige("option_matrix:plan", "correspondence", True, f"{len(cen['live'])} live options, {len(cen['dead'])} dead, census sha {cen['sha']}")
+    specs = OM.plan(tab, ctx.tier, ctx.seed)
+    trs = OM.traces(specs)
+    if ctx.tier == "thorough":
+        bad = {(o, l) for tr in trs if "harness_exc" not in tr and OM.monitor(tr) for o, l in zip(tr["spec"]["om"]["options"], tr["spec"]["om"]["labels"])}
+        pspecs = OM.pair_specs(tab, ctx.seed, 240, bad)
+        specs = specs + pspecs
+        trs = trs + OM.traces(pspecs)
+    herr = [(tr["spec"].get("om"), tr["harness_exc"][-300:]) for tr in trs if "harness_exc" in tr]
+    if not ctx.oblige("option_matrix:harness", "harness", not herr, str(herr[:2])):
+        broken.append(("option_matrix:harness", f"{len(herr)} matrix runs could not be executed: {herr[:1]}"))
+    good = [tr for tr in trs if "harness_exc" not in tr]
+    # --- monitors (concrete replays)
+    hits, per_mode, touched = {}, {}, set()
+    for tr in good:
+        om = tr["spec"]["om"]
+        per_mode[om["mode"]] = per_mode.get(om["mode"], 0) + 1
+        touched.update(om["options"])
+        for key, what in OM.monitor(tr):
+            hits.setdefault(key, 0)
+            hits[key] += 1
+            ctx.violate(key, what, dict(kind="optmatrix", spec=tr["spec"], how="cd /verif && ./check C09 --replay <this file>"))
+    # --- the census against what the real Options object was asked for during these runs
+    missing, seen, unseen = OM.validate_census(good, cen)
+    if not ctx.oblige("translator_validation:option_reads", "translator", not missing,
+                      f"{len(seen)} distinct (option, file, function) reads observed on the real Options object, all in the census" if not missing
+                      else f"reads performed by the real code but absent from the census: {missing[:5]}"):
+        broken.append(("translator_validation:option_reads", f"the census of option reads misses reads the real code performs: {missing[:5]}"))
+    want = sorted(k for k, t in tab.items() if t["values"])
+    untouched = [k for k in want if k not in touched]
+    if not ctx.oblige("option_matrix:every_live_option_run", "coverage", not untouched, f"live options with values but no run: {untouched}"):
+        broken.append(("option_matrix:every_live_option_run", f"live options without a run: {untouched}"))
+    # --- the skeleton model on the runs inside its premises
+    inm, outm = [], {}
+    for sp, tr in zip(specs, trs):
+        if "harness_exc" in tr:
+            continue
+        ok, why = OM.in_model(tr)
+        if ok:
+            inm.append((sp, tr))
+        else:
+            outm[why] = outm.get(why, 0) + 1
+    n_in_premises = len(inm)
+    if ctx.quick:       # all runs that change an option the model reads + a seeded sample of the others (the thorough tier compares all)
+        rel = [(sp, tr) for sp, tr in inm if set(tr["spec"]["om"]["options"]) & OM.MODEL_RELEVANT]
+        oth = [(sp, tr) for sp, tr in inm if not (set(tr["spec"]["om"]["options"]) & OM.MODEL_RELEVANT)]
+        ctx.rng.shuffle(oth)
+        inm = rel + oth[:OM.QUICK_OTHER_COMPARED]
+    nod = [(sp, tr) for sp, tr in inm if OM.noisy_target_run_as_deterministic(tr)]
+    inm = [(sp, tr) for sp, tr in inm if not OM.noisy_target_run_as_deterministic(tr)]
+    out = R.tie_skeleton(ctx, broken, [(sp, None) for sp, _ in inm], "c09om", trs=[tr for _, tr in inm])
+    if nod:     # state comparison only: det_ok presupposes a deterministic target
+        out += R.tie_skeleton(ctx, broken, [(sp, None) for sp, _ in nod], "c09om_nodet", trs=[tr for _, tr in nod], need_det_ok=False)
+    R.count_runs(ctx, [(tr, None) for tr in good],
+                 lambda tr, P: any(e[0] == "search_begin" for e in tr.get("events", [])) and any(e[0] == "poll_begin" for e in tr.get("events", [])))
+    ctx.coverage["option_matrix"] = dict(
+        census=dict(sha=cen["sha"], files=len(cen["files"]), defined=len(cen["defined"]), live=len(cen["live"]), dead=cen["dead"],
+                    read_but_defined_in_no_ini_file=cen["read_but_undefined"], written_by_code=cen["written_by_code"], reads=len(cen["reads"]),
+                    json=".cache/option_reads.json", sites_observed=len(seen), sites_never_observed=[list(u) for u in unseen]),
+        runs=len(good), runs_per_mode=per_mode, options_touched=len(touched), runs_inside_skeleton_premises=n_in_premises, compared_with_skeleton=len(inm) + len(nod),
+        compared_without_det_ok=[tr["spec"]["om"] for _, tr in nod], outside_skeleton_premises=outm,
+        monitor_hits=hits,
+        values={k: dict(default=t["default"], type=t["type"], uses=t["kinds"], rule=t["rule"], values=[v["label"] for v in t["values"]],
+                        excluded=t["excluded"], note=t["why"]) for k, t in tab.items()})
 
 
 def search(ctx, broken):
     if R.truncate_search(ctx, R.mon_c09):
         return True
     specs = S.panel("thorough", ctx.seed + 31)[:48]
-    out = [(tr, None) for tr in S.traces([(s, None) for s in specs], "c09s")]
+    out = [(tr, None) for tr in S.traces([(s, None) for s in specs], "c09s") if not _generator_made_invalid_problem(tr)]
     return R.apply_monitor(ctx, out, R.mon_c09) > 0
 
 
+def _generator_made_invalid_problem(tr):
+    """the random thorough panel combines x0 kinds and constraint kinds freely; a start that violates the constraint is an INVALID problem and its
+    rejection (ValueError, C02) is the documented behaviour - not an input for C09 (it used to be reported as a concrete violation by this search)"""
+    ce = tr.get("construct_exc")
+    return bool(ce) and ce[0] == "ValueError" and "does not satisfy non-bound constraints" in ce[1] or \
+        bool(ce) and ce[0] == "ValueError" and "no longer satisfy non-bound constraint" in ce[1]
+
+
 def replay(ctx, rp):
+    r = rp["replay"]
+    if r.get("kind") == "optmatrix":
+        tr = OM.run_one(r["spec"])
+        if "harness_exc" in tr:
+            print(tr["harness_exc"])
+            return 2
+        hits = OM.monitor(tr)
+        for k, w in hits:
+            print("replay:", k, "::", w)
+        print("exc:", tr.get("exc") or tr.get("construct_exc"), "result:", tr.get("result"))
+        if not hits:
+            print("replay: holds on this input")
+        return 1 if hits else 0
     return R.generic_replay(ctx, rp, [R.mon_c09])
